@@ -288,6 +288,11 @@ class Rec:
         ev = [0]
         if kp.key_buffer or kp.input_queue:
             self.events.append([3, [self.kp(k) for k in kp.key_buffer], [self.kp(k) for k in kp.input_queue]])
+            if not kp.input_queue and self.results and self.results[-1] == [1]:
+                # the previous prompt ended with EOFError while a prefix of longer bindings was waiting in the key
+                # buffer: the input is closed, the waiting key can never complete and reset() discards it
+                # (C17_after_accept_any_schedule / C17_eof_witness); accounted for, not a loss across an accept
+                self.handled.extend(kp.key_buffer)
         self.events.append(ev)
 
     def after_prompt(self, result):
@@ -997,6 +1002,18 @@ def gen_scenarios(chk):
                ["w", kb[ck:] + bytes_of(l2b)], ["sleep", 0.02], ["close"]] + [["start"], ["wait"]] * 4
         toks = l1 + l2a + [key] + l2b
         add("busy-gap-between-prompts", {"rcpr": 0, "mode": "async", "ops": ops, "tokens": [list(t) for t in toks], "maxp": 4})
+    # the input is closed while a key press that is a prefix of longer bindings (c-x, Escape) waits in the key
+    # buffer: the prompt ends with EOFError, the next reset() throws the waiting key away (C17_eof_witness);
+    # the returned lines are the script's, every later prompt raises EOFError
+    neof = 60 if thorough else 8
+    for _ in range(neof):
+        toks = rand_script(rng, rng.randint(1, 3))
+        tail_text = [("c", rng.choice("ab")) for _ in range(rng.randint(0, 2))]
+        pend = rng.choice(["\x18", "\x1b", "\x18"])
+        n = len(expected_results(toks))
+        data = bytes_of(toks) + bytes_of(tail_text) + pend
+        ops = [["start"]] + [["w", c] for c in cut(rng, data, rng.choice([2, 50]))] + [["close"]] + [["start"], ["wait"]] * (n + 2)
+        add("eof-with-pending-prefix", {"rcpr": rng.choice([0, 1]), "mode": "async", "ops": ops, "tokens": [list(t) for t in toks], "maxp": n + 2})
     # reports cut into a key's own byte sequence: not something a terminal does; reported separately
     nmid = 200 if thorough else 20
     for _ in range(nmid):
@@ -1186,6 +1203,7 @@ def main(tier):
         "emacs editing mode, default buffer focused; 22 modelled handler classes (incl. every binding of the default table that ends the prompt: Enter, ESC Enter, c-c, c-d, c-o, ESC #); handlers of classes 97/98/99 (call-last-kbd-macro, mouse scroll, history, completion ...) are modelled as inert and never generated; the snapshot comparison stops at the first such handler call the implementation makes",
         "reports cut into the byte sequence of a single key (family cpr-inside-a-key-sequence) are exempt from the script and the report-never-text clauses (such a report can land inside a bracketed paste); model/implementation agreement and conservation are still required",
         "one PromptSession is reused for all prompts of a scenario, except in the family fresh-session-per-prompt (results only)",
+        "a key press waiting in the key buffer (prefix of longer bindings) when a prompt ends with EOFError is discarded by the next reset(): the conservation clause counts it as accounted for when the queue is empty then (C17_after_accept_any_schedule, C17_eof_witness; dismissed as a finding: input closed, no returned line changes)",
         "the model's pipe holds code points; the family utf8-split-inside-characters writes BYTES cut inside multi-byte characters and labels each write with the characters it completes (the UTF-8 decoder itself is C03's model; Props/C17.v also instantiates the script theorem over it)",
         "timeouts are labels: ttimeoutlen/timeoutlen are set to 10 ms by the harness where a flush is wanted and to 1000 s/None elsewhere; "
         "Renderer.wait_for_cpr_responses is called with timeout 0.05 s instead of 1 s; Renderer.CPR_TIMEOUT is 1000 s",
